@@ -3,3 +3,4 @@ pub mod runner;
 pub mod tape;
 pub mod crash;
 pub mod selftest;
+pub mod adversary;
